@@ -380,6 +380,7 @@ theorem readDataBlockPatch_encodeBlock (inflate : Bytes → Nat → Option Bytes
     have hpad := pad128_toNat c.length (by omega)
     have h1 : ¬ (2 ^ 31 ≤ c.length ∨ 2 ^ 31 ≤ d.length) := by omega
     have h2 : c.length < 32000 := hwf.2
+    have hcap : ¬ 2 ^ 20 < d.length := by omega
     have h16 : (16 : UInt32).toUInt64 = 16 := by decide
     have h3 : ¬ pad128 (UInt64.ofNat c.length) < 16 := by
       rw [UInt64.lt_iff_toNat_lt, hpad]; simp; omega
@@ -391,7 +392,7 @@ theorem readDataBlockPatch_encodeBlock (inflate : Bytes → Nat → Option Bytes
     simp only [List.append_assoc] at hrd
     simp only [Block.inflateOk] at hinf
     simp only [encodeBlock, List.append_assoc, readDataBlockPatch, rdU32le_put, drop4_putU32le,
-      Option.bind_eq_bind, Option.bind_some, hp, hx, hy, hx64, h1, h2, ↓reduceIte, h16, h3, hrd, hinf, Block.data]
+      Option.bind_eq_bind, Option.bind_some, hp, hx, hy, hx64, h1, h2, hcap, ↓reduceIte, h16, h3, hrd, hinf, Block.data]
     rfl
 
 theorem fileSize_cons (b : Block) (bs : List Block) : fileSize (b :: bs) = b.data.length + fileSize bs := by
@@ -461,8 +462,9 @@ theorem applyLoop_encodeCmd (inflate : Bytes → Nat → Option Bytes) (fuel : N
     | none => simp [applyChunk, hmk]
     | some t1 =>
       simp only [blocksBytes] at hrb ⊢
-      simp only [hrb, hdrop]
-      rfl
+      simp only [addFileBlocks_of_readBlocks inflate (pathComps path).2 off (fileSize blocks) _ _ _ _ t1 hrb,
+        hdrop, applyChunk, hmk]
+      cases openCreate t1 (pathComps path).2 <;> rfl
   | _ =>
     simp only [blocksBytes, List.nil_append] at hlen
     simp only [toChunk, hlen, ↓reduceIte, blocksBytes, List.nil_append, hdrop, payload]
